@@ -12,6 +12,7 @@ CONSTANTS
   MaxR = 3
   MaxMsg = 4
   PipeWriteLock = TRUE
+  C2ClosesPipe = TRUE
   EnvAtRest = FALSE
   History = TRUE
 SPECIFICATION Spec
